@@ -8,6 +8,9 @@ def one(sd):
     name = os.path.basename(sd)
     pid = name.split("-")[0]
     meta = json.load(open(os.path.join(sd, "meta.json")))
+    if meta.get("obsolete"):
+        summ = " ".join(str(meta.get("summary", "")).split())[:150].replace("|", "/")
+        return f"| {name} | {summ} | (obsolete: trigger repaired in /repo, see meta.json) |"
     tmp = tempfile.mkdtemp(prefix="seedtab.")
     try:
         shutil.copytree("/repo/src", os.path.join(tmp, "src"), ignore=shutil.ignore_patterns("__pycache__", "*.egg-info"))
